@@ -43,6 +43,16 @@ template<typename F, typename V> static void global_wrap(const F& f, const V& v0
   std::string x, y; vbytes(gv.local(), x); vbytes(lv, y); VF_CHECK(x == y, "Global::Filter<" << what << ">::" << fop_name[op] << " differs from the wrapped local filter's " << fop_name[op]);
 }
 
+// a clone of a filter (deep and shallow) filters exactly like its source
+template<typename F, typename V> static void clone_twin(const F& f, const V& v0, int op, const char* what)
+{
+  for(int m = 0; m < 2; ++m)
+  {
+    F g = f.clone(m ? CloneMode::Shallow : CloneMode::Deep); V a = v0.clone(), b = v0.clone(); apply_op(f, a, op); apply_op(g, b, op);
+    std::string x, y; vbytes(a, x); vbytes(b, y); VF_CHECK(x == y, (m ? "shallow" : "deep") << " clone of the " << what << " filter: " << fop_name[op] << " differs from the source filter's");
+  }
+}
+
 static void unit_case(Tape& t, Ctx& c)
 {
   long n = t.sized(0, 40, 3); std::string icls; std::vector<long> idx = gen_index_set(t, n, icls);
@@ -57,7 +67,7 @@ static void unit_case(Tape& t, Ctx& c)
   {
     c.desc.set("op", fop_name[op]); c.op = std::string(fop_name[op]) + "@unit"; c.label(std::string("op:") + fop_name[op]); c.announce();
     DV v((Index)n); vfill_all(v, vv); std::string b0; vbytes(v, b0);
-    apply_op(f, v, op);
+    clone_twin(f, v, op, "unit"); apply_op(f, v, op);
     for(long i = 0; i < n; ++i)
     {
       DT got = v.elements()[i];
@@ -127,7 +137,7 @@ template<int B> static void blocked_case(Tape& t, Ctx& c)
   {
     c.desc.set("op", fop_name[op]); c.op = std::string(fop_name[op]) + "@unit_blocked"; c.label(std::string("op:") + fop_name[op]); c.announce();
     UnitFilterBlocked<DT, IT, B> f((Index)n, nans); for(size_t k = 0; k < idx.size(); ++k) f.add((Index)idx[k], blk(k));
-    V v((Index)n); vfill_all(v, vv); apply_op(f, v, op); std::vector<long double> r; vflat(v, r);
+    V v((Index)n); vfill_all(v, vv); clone_twin(f, v, op, "blocked unit / slip"); apply_op(f, v, op); std::vector<long double> r; vflat(v, r);
     for(long i = 0; i < n; ++i) for(int j = 0; j < B; ++j)
     {
       size_t q = (size_t)(i * B + j);
@@ -140,7 +150,7 @@ template<int B> static void blocked_case(Tape& t, Ctx& c)
   {
     c.desc.set("op", fop_name[op]); c.op = std::string(fop_name[op]) + "@slip"; c.label(std::string("op:") + fop_name[op]); c.announce();
     SlipFilter<DT, IT, B> f((Index)n, (Index)n); for(size_t k = 0; k < idx.size(); ++k) f.add((Index)idx[k], blk(k));
-    V v((Index)n); vfill_all(v, vv); apply_op(f, v, op); std::vector<long double> r; vflat(v, r);
+    V v((Index)n); vfill_all(v, vv); clone_twin(f, v, op, "blocked unit / slip"); apply_op(f, v, op); std::vector<long double> r; vflat(v, r);
     for(long i = 0; i < n; ++i)
     {
       if(!con[(size_t)i]) { for(int j = 0; j < B; ++j) VF_CHECK(r[(size_t)(i * B + j)] == (long double)vv[(size_t)(i * B + j)], fop_name[op] << ": unconstrained block " << i << " changed"); continue; }
@@ -182,7 +192,7 @@ static void mean_case(Tape& t, Ctx& c)
   c.op = std::string(fop_name[op]) + "@mean"; c.label(std::string("op:") + fop_name[op]); c.nontrivial = n >= 2; c.announce();
   DV vp((Index)n), vd((Index)n); vfill_all(vp, prim); vfill_all(vd, dual);
   MeanFilter<DT, IT> f(std::move(vp), std::move(vd), DT(solmean));   // volume := prim.dual, as the assembler sets it
-  DV v((Index)n); vfill_all(v, vv); global_wrap(f, v, op, "mean"); apply_op(f, v, op); std::vector<long double> r; vflat(v, r);
+  DV v((Index)n); vfill_all(v, vv); global_wrap(f, v, op, "mean"); clone_twin(f, v, op, "mean"); apply_op(f, v, op); std::vector<long double> r; vflat(v, r);
   long double rp = 0, rd = 0, sp = 0, sd = 0, vmax = 0, pmax = 0, dmax = 0;
   for(long i = 0; i < n; ++i) { rp += r[(size_t)i] * prim[(size_t)i]; rd += r[(size_t)i] * dual[(size_t)i]; vmax = std::max(vmax, fabsl((long double)vv[(size_t)i])); pmax = std::max(pmax, fabsl((long double)prim[(size_t)i])); dmax = std::max(dmax, fabsl((long double)dual[(size_t)i])); }
   (void)sp; (void)sd;
@@ -213,7 +223,7 @@ static void mean_blocked_case(Tape& t, Ctx& c)
   auto fillb = [&](VB& x, const std::vector<double>* src) { DT* e = x.template elements<Perspective::pod>(); for(long i = 0; i < n; ++i) for(int j = 0; j < B; ++j) e[B * i + j] = src[j][(size_t)i]; };
   VB vp((Index)n), vd((Index)n), v((Index)n); fillb(vp, prim); fillb(vd, dual); fillb(v, vv); TV sm; for(int j = 0; j < B; ++j) sm[j] = solmean[j];
   MeanFilterBlocked<DT, IT, B> f(std::move(vp), std::move(vd), sm);
-  global_wrap(f, v, op, "mean_blocked"); apply_op(f, v, op);
+  global_wrap(f, v, op, "mean_blocked"); clone_twin(f, v, op, "blocked mean"); apply_op(f, v, op);
   const DT* r = v.template elements<Perspective::pod>();
   for(int j = 0; j < B; ++j)
   {
